@@ -130,6 +130,11 @@ def check(ctx):
             if i < len(bases):
                 bases[i] = json.loads(json.dumps(FULL_BASE))
     progs.feature_stats(ctx, ps)
+    if not ctx.replay:
+        # the JSON-level theorems are about Model/BuilderBase.v: tie it to Builder::with_base (identical merged documents)
+        from . import evaltie
+        k = 600 if ctx.thorough else 120
+        evaltie.run(ctx, [dict({"mods": p["mods"], "main": p["main"]}, base=json.dumps(b)) for p, b in list(zip(ps, bases))[:k]])
     plain = progs.compile_many(ps)
     with_base = progs.compile_many([dict(p, base=json.dumps(b)) for p, b in zip(ps, bases)])
     mlines = []
